@@ -2388,7 +2388,7 @@ func extractQueryParams(a *expr.MappedAttributeExpr, service *expr.AttributeExpr
 
 func extractHeaders(a *expr.MappedAttributeExpr, svcAtt *expr.AttributeExpr, svcCtx *codegen.AttributeContext, scope *codegen.NameScope) []*HeaderData {
 	var headers []*HeaderData
-	codegen.WalkMappedAttr(a, func(name, elem string, required bool, _ *expr.AttributeExpr) error { // nolint: errcheck
+	codegen.WalkMappedAttr(a, func(name, elem string, required bool, c *expr.AttributeExpr) error { // nolint: errcheck
 		var attr *expr.AttributeExpr
 		if attr = svcAtt.Find(name); attr == nil {
 			attr = svcAtt
@@ -2400,7 +2400,7 @@ func extractHeaders(a *expr.MappedAttributeExpr, svcAtt *expr.AttributeExpr, svc
 			stringSlice = arr.ElemType.Type.Kind() == expr.StringKind
 		}
 
-		hattr = makeHTTPType(attr)
+		hattr = withMappingValidation(makeHTTPType(attr), c)
 		var (
 			varn    = scope.Name(codegen.Goify(name, false))
 			arr     = expr.AsArray(hattr.Type)
@@ -2449,14 +2449,29 @@ func extractHeaders(a *expr.MappedAttributeExpr, svcAtt *expr.AttributeExpr, svc
 	return headers
 }
 
+// withMappingValidation returns att with the validations declared in the HTTP
+// mapping of the attribute (Header("name", func() { ... })) added to its own.
+// mapped is the attribute of the mapping; att is not modified.
+func withMappingValidation(att, mapped *expr.AttributeExpr) *expr.AttributeExpr {
+	if mapped == nil || mapped.Validation == nil || mapped.Validation == att.Validation {
+		return att
+	}
+	res := *att
+	res.Validation = mapped.Validation.Dup()
+	if att.Validation != nil {
+		res.Validation.Merge(att.Validation)
+	}
+	return &res
+}
+
 func extractCookies(a *expr.MappedAttributeExpr, svcAtt *expr.AttributeExpr, svcCtx *codegen.AttributeContext, scope *codegen.NameScope) []*CookieData {
 	var cookies []*CookieData
-	codegen.WalkMappedAttr(a, func(name, elem string, required bool, _ *expr.AttributeExpr) error { // nolint: errcheck
+	codegen.WalkMappedAttr(a, func(name, elem string, required bool, matt *expr.AttributeExpr) error { // nolint: errcheck
 		var hattr *expr.AttributeExpr
 		if hattr = svcAtt.Find(name); hattr == nil {
 			hattr = svcAtt
 		}
-		hattr = makeHTTPType(hattr)
+		hattr = withMappingValidation(makeHTTPType(hattr), matt)
 		var (
 			varn    = scope.Name(codegen.Goify(name, false))
 			typeRef = scope.GoTypeRef(hattr)
